@@ -322,6 +322,7 @@ class P(Prop):
         ("TracklibVerif.Props.C18Fast", "TV.C18.match_fdtw_history_any", "match(m, track2, FDTW, p, dim) on a track m carrying the feature rows of an earlier matching is match on the same positions without features, for p in ANY form (numpy scalar, callable, exponent not a natural number) — generalises match_fdtw_history"),
         ("TracklibVerif.Props.C18Fast", "TV.C18.fast_call_ok", "FastCallOK over an ordered field, whatever the form of p: it holds when _distance is non-negative, B**x >= 0 on B >= 0 (only used for an exponent that is not a natural number) and big is above every candidate cost"),
         ("TracklibVerif.Props.C18Fast", "TV.C18.session_history_irrelevant_all", "session_history_irrelevant_fdtw with the hypotheses of match_fdtw_correct / match_fdtw_real_correct spelt out for the FDTW calls (non-negative distance, B**x >= 0, big above the candidate costs of every pair of tracks of the session)"),
+        ("TracklibVerif.Props.C18Fast", "TV.C18.fast_hyp_check_sound", "the executable monitor the driver runs on every generated single call of the modes DTW / FDTW (C18.hyp, fastHypCheck in Float with B**x = Float.pow: every point distance >= 0, weight(0, B) >= 0, every candidate cost weight(T[i,j], D[i',j']) < 1e300) is sound: when it accepts, the hypotheses of fdtw_equal / match_fdtw_correct / match_fdtw_real_correct / session_history_irrelevant_fdtw hold, for every accumulation _p2weight can return"),
         ("TracklibVerif.Props.C18Int64", "TV.C18.int64_power", "B**k on numpy.int64 (k wrapped multiplications, any order) is the exact power reduced modulo 2^64 into [-2^63, 2^63), and the exact power when 0 <= B and B^k < 2^63"),
         ("TracklibVerif.Props.C18Int64", "TV.C18.int64_power_bounds", "B**2 fits int64 for 0 <= B <= 3037000499, B**3 for 0 <= B <= 2097151; 3037000500**2 and 2097152**3 already wrap to negative numbers"),
         ("TracklibVerif.Props.C18Int64", "TV.C18.match_fdtw_int64_exact", "match(track1, track2, FDTW, p = k >= 1, dim) on numpy.int64 coordinates (matchFdtw64: B**k in int64) returns exactly what it returns on float / Python-int coordinates when every point distance B between the two tracks is a non-negative integer with B^k < 2^63"),
@@ -333,7 +334,7 @@ class P(Prop):
                        "sessions that include the FDTW modes (3 / 107) are covered by session_history_irrelevant_fdtw / session_history_irrelevant_all under the hypotheses of match_fdtw_correct on every FDTW call (FastCallOK); without them (a callable dim returning negative numbers, accumulated costs reaching 1e300) nothing is claimed of FDTW, histories included. The proof goes through fdtw_spec; that the walk through the antecedent map is a coupling whenever the loop ends (which would do without monotonicity / inflation) is not proved",
                        "numpy.int64 coordinates (finding fdtw-numpy-int-coordinates-power-overflow): Model/DTWInt64.lean models B**p in int64 for match() in the mode FDTW with dim = 1 or a callable returning numpy.int64; match_fdtw_int64_exact gives the bound on the point distances under which it is exact; above it the driver's int64 run (C18.match64) is compared with the real code (correspondence only: the property is violated there). Not modelled: compare() on such inputs ((negative score / nb_links)**(1/p) = nan), the non-symmetric callable fn.lead (int64 or float distance depending on the pair), int64 overflow of the coordinate differences themselves (|z1 - z2| >= 2^63), the rounding of the wrapped integers to float64 in the cost table (theorems over an ordered field)",
                        "the swap clause on GeoCoords tracks with dim = 2 is false for fixes of different heights (finding geo-2d-distance-asymmetric): match_onesided is what holds there",
-                       "exponents that are not natural numbers (p = 0.5, 1.5, ...): B**x is a parameter of the model (Float.pow in the driver); match_real_correct holds for any such function, match_fdtw_real_correct needs B**x >= 0 on B >= 0; unit_invariant (coordinates multiplied by c) is stated for natural exponents and infinity only (cost_unit_invariant_real is the statement on the point distances for the other exponents)",
+                       "exponents that are not natural numbers (p = 0.5, 1.5, ...): B**x is a parameter of the model (Float.pow in the driver); match_real_correct holds for any such function, match_fdtw_real_correct needs B**x >= 0 on B >= 0 — checked of Float.pow on the distances of every generated single call by the monitor C18.hyp (fast_hyp_check_sound), together with 'every candidate cost below 1e300'; unit_invariant (coordinates multiplied by c) is stated for natural exponents and infinity only (cost_unit_invariant_real is the statement on the point distances for the other exponents)",
                        "an exponent p given as a numpy scalar is judged as the Python number of the same value (1f009f6); the model carries the value of p exactly, so a numpy.float16 / float32 p whose value is not the decimal the caller wrote (float16(0.1)) is the number it holds; compare() for a finite p, (score/nb_links)**(1/p), is compared with the model only (not part of the statement)",
                        "a negative or NaN exponent, a dim other than 1, 2, 3 or a callable (`_distance` returns None), tracks whose positions are of two different classes, and STANDARD_PROJ = 2 are neither modelled nor generated"]
     modelled = ("algo/comparison.py: match and compare as called — dispatch on the integer mode constants (2/3/4, 106/107/108; UnknownModeError otherwise), "
@@ -929,7 +930,17 @@ class P(Prop):
         for k in self.int64_steps(case):
             st = case["steps"][k]
             out.append("C18.match64 %s %s %s %s" % (st["p"], st["dim"], self.tok(self.geo(case, st["a"])), self.tok(self.geo(case, st["b"]))))
+        # every other call in a FDTW mode: the monitor of the hypotheses of session_history_irrelevant_fdtw (TV.C18.fast_hyp_check_sound)
+        for k in self.hyp_steps(case):
+            st = case["steps"][k]
+            out.append("C18.hyp %s %s %s %s %s" % (case.get("cls", "enu"), ptok(st["p"]), st["dim"], self.tok(self.geo(case, st["a"])), self.tok(self.geo(case, st["b"]))))
         return out
+
+    def hyp_steps(self, case):
+        """the calls of a session in a FDTW mode on non-empty tracks with a defined point distance, outside the listed int64 class"""
+        return [k for k, st in enumerate(case["steps"])
+                if st["mode"] == "fdtw" and defined(case.get("cls", "enu"), st["dim"]) and self.geo(case, st["a"]) and self.geo(case, st["b"])
+                and not self.npoverflow(case, st)]
 
     def int64_steps(self, case):
         """the calls of a session that the int64 model (`C18.match64`: `B**p` evaluated in int64) predicts: match() in the mode FDTW on
@@ -949,8 +960,11 @@ class P(Prop):
                 res.append(self.parse_out(r))
             else:
                 res.append({"value": bitsf(r)})
-        for k, r in zip(self.int64_steps(case), replies[1:]):
+        n64 = self.int64_steps(case)
+        for k, r in zip(n64, replies[1:]):
             res[k] = dict(res[k], i64={"err": r} if r.startswith("err:") or r in ("bad-request", "unmodelled") else self.parse_out(r))
+        for k, r in zip(self.hyp_steps(case), replies[1 + len(n64):]):
+            res[k] = dict(res[k], hyp=r)
         return {"steps": res}
 
     def exact_tracks(self, t1, t2, dim, cls="enu"):
@@ -969,6 +983,9 @@ class P(Prop):
         tainted = set()      # results of calls of the listed class (and of calls made on such results): not compared
         for k, st in enumerate(case["steps"]):
             io, mo = impl_out["steps"][k], model_out["steps"][k]
+            if mo.get("hyp", "1") != "1":
+                return "call %d: the hypotheses of session_history_irrelevant_fdtw (FastCallOK) do not hold on this input: C18.hyp = %s" % (k, mo["hyp"])
+            mo = {kk: v for kk, v in mo.items() if kk != "hyp"}
             if st["a"] in tainted or st["b"] in tainted:
                 tainted.add("r%d" % k)
                 continue
@@ -1108,6 +1125,9 @@ class P(Prop):
                 out.append("C18.match %s fdtw %s %s %s %s" % (cls, ptok(p), dim, a, b))
             if mode == "frechet":
                 out.append("C18.compare %s frechet inf %s %s %s" % (cls, dim, a, b))
+        if mode in ("dtw", "fdtw"):
+            # the monitor of the hypotheses under which the fast variant is proved correct (TV.C18.fast_hyp_check_sound), one per p
+            out += ["C18.hyp %s %s %s %s %s" % (cls, ptok(p), dim, a, b) for p in case["ps"]]
         return out
 
     @staticmethod
@@ -1135,6 +1155,9 @@ class P(Prop):
             if case["mode"] == "frechet":
                 o["compare"] = bitsf(replies[k]); k += 1
             res[p] = o
+        if case["mode"] in ("dtw", "fdtw"):
+            for p in case["ps"]:
+                res[p]["hyp"] = replies[k]; k += 1
         return res
 
     def compare(self, case, impl_out, model_out):
@@ -1148,7 +1171,10 @@ class P(Prop):
             return None if rclose(impl_out, model_out, TOL) else "impl=%s model=%s" % (impl_out, model_out)
         t1, t2 = pts(case["a"]), pts(case["b"])
         for p in case["ps"]:
-            io, mo = impl_out[p], model_out[p]
+            io, mo = impl_out[p], {k: v for k, v in model_out[p].items() if k != "hyp"}
+            if model_out[p].get("hyp", "1") != "1":
+                # (a finding about the generators, not about tracklib: the theorems on the fast variant say nothing of this input)
+                return "p=%s: the hypotheses of match_fdtw_correct / match_fdtw_real_correct (non-negative distances and powers, candidate costs below 1e300) do not hold on this input: C18.hyp = %s" % (p, model_out[p]["hyp"])
             if io["pairs"] != mo["pairs"]:
                 # a different coupling is acceptable only when it is a valid optimal one too (a tie, resolved
                 # differently because of the last bit of a float): validated by the property's oracle
